@@ -10,7 +10,8 @@ INTS = ['0', '1', '9', '10', '15', '16', '255', '256', '4095', '4096', '65535', 
 FLOATS = ['0.0', '0.', '.0', '1.0', '1.', '.5', '0.5', '1.5', '10.0', '100.0', '1000.0', '1e3', '1e5', '100000.0', '1000000.0', '123456789.0',
           '1200.0', '1e16', '1e15', '1e22', '1e23', '1.5e300', '1e308', '1e309', '1e999', '5e-324', '1e-400', '1e-5', '1e-7', '0.0001',
           '0.00001', '0.1', '3.14159', '12345678901234567890.0', '1.7976931348623157e308', '2.2250738585072014e-308', '1E5', '1_0.0_1',
-          '120000000000000000000000.0', '1.0e-10']
+          '120000000000000000000000.0', '1.0e-10', '12345678901234568.0', '1.2345678901234568e16', '98765432109876544.0', '10000000000000002.0',
+          '1.5e16', '15e15', '1.25e17', '123456789012345680.0', '9007199254740993.0', '4503599627370497.5', '1e15', '123456789012345.6']
 IMAGS = ['0j', '1j', '1.5j', '.5j', '1e999j', '1e22j', '100j', '1e5j', '1e-7j', '0.0j', '10J', '1_0j', '5e-324j', '1e-400j', '123456789j']
 
 CONTEXTS = [
